@@ -270,6 +270,9 @@ func runImports(a *runArgs, prop string) error {
 			hists = append(hists, c09Gen(r, maxLen))
 		}
 	}
+	if prop == "C15" && a.Replay == "" {
+		c15XGoDeps(m, r, repeats)
+	}
 	for idx, ops := range hists {
 		collision := false
 		run := c09Execute(ops)
@@ -329,4 +332,82 @@ func runImports(a *runArgs, prop string) error {
 	m.Distinct = len(distinct)
 	m.Files = cw.files
 	return writeJSON(filepath.Join(a.Out, "meta.json"), m)
+}
+
+// ---- C15: the XGo dependency list (a string constant collected from a map) across rebuilds ----
+
+type c15MemImporter struct {
+	pkgs map[string]*types.Package
+	next types.Importer
+}
+
+func (m *c15MemImporter) Import(path string) (*types.Package, error) {
+	if p, ok := m.pkgs[path]; ok {
+		return p, nil
+	}
+	return m.next.Import(path)
+}
+
+func c15XGoDeps(m *meta, r *rand.Rand, repeats int) {
+	paths := []string{"a/util", "b/util", "c/conv", "d/util", "e/x/conv", "f/zeta", "g/alpha"}
+	imp := &c15MemImporter{pkgs: map[string]*types.Package{}, next: c09Imp}
+	for _, p := range paths {
+		fs := token.NewFileSet()
+		name := p[strings.LastIndex(p, "/")+1:]
+		f, err := parser.ParseFile(fs, "x.go", "package "+name+"\n\nconst XGoPackage = true\n\ntype T struct{ A int }\n", 0)
+		if err != nil {
+			return
+		}
+		tp, err := (&types.Config{}).Check(p, fs, []*ast.File{f}, nil)
+		if err != nil {
+			return
+		}
+		imp.pkgs[p] = tp
+	}
+	for sc := 0; sc < 12; sc++ {
+		n := 2 + r.Intn(len(paths)-1)
+		perm := r.Perm(len(paths))[:n]
+		build := func() (string, string) {
+			var out bytes.Buffer
+			fault := ""
+			func() {
+				defer func() {
+					if e := recover(); e != nil {
+						fault = fmt.Sprint(e)
+					}
+				}()
+				pkg := gogen.NewPackage("", "lib", &gogen.Config{Fset: token.NewFileSet(), Importer: imp})
+				var params []*types.Var
+				for i, k := range perm {
+					t := pkg.Import(paths[k]).Ref("T").Type()
+					params = append(params, types.NewParam(token.NoPos, pkg.Types, fmt.Sprintf("p%d", i), types.NewPointer(t)))
+				}
+				pkg.NewFunc(nil, "Example", types.NewTuple(params...), nil, false).BodyStart(pkg).End()
+				if err := pkg.WriteTo(&out); err != nil {
+					fault = err.Error()
+				}
+			}()
+			return out.String(), fault
+		}
+		first, fault := build()
+		m.DirectRuns++
+		m.Dist["xgo dependency scenarios"]++
+		var used []string
+		for _, k := range perm {
+			used = append(used, paths[k])
+		}
+		rep := map[string]any{"kind": "xgo-deps", "packages": used, "first": first}
+		if fault != "" {
+			m.Direct = append(m.Direct, directViolation{Case: sc, What: "building a package that depends on XGo packages faults: " + fault, Replay: rep})
+			continue
+		}
+		for k := 0; k < repeats*4; k++ {
+			again, _ := build()
+			if again != first {
+				rep["again"] = again
+				m.Direct = append(m.Direct, directViolation{Case: sc, What: fmt.Sprintf("rebuilding a package whose exported signatures use the XGo packages %v gave different bytes", used), Replay: rep})
+				break
+			}
+		}
+	}
 }
